@@ -761,18 +761,7 @@ func writeBuffersTo(conn net.Conn, p net.Buffers, idleTimeout time.Duration) err
 			return err
 		}
 
-		// Don't modify the original buffers.
-		var remaining net.Buffers
-		offset := int(n) // size limited by packetMax
-		for i, buf := range p {
-			if len(buf) > offset {
-				remaining = append(remaining, buf[offset:])
-				remaining = append(remaining, p[i+1:]...)
-				break
-			}
-			offset -= len(buf)
-		}
-		p = remaining
+		// WriteTo consumed the n bytes from p already.
 	}
 }
 
